@@ -151,6 +151,18 @@ pub const BLOCKS: &[(u32, u32)] = &[
     (0x1f300, 0x1f64f), // pictographs, emoticons
     (0x1f900, 0x1f9ff), // supplemental symbols
     (0xe0020, 0xe007f), // tags
+    (0xd7b0, 0xd7ff),   // Hangul jamo extended-B (end of the BMP before the surrogates)
+    (0xe000, 0xe0ff),   // BMP private use
+    (0xfff0, 0xffff),   // specials incl. U+FFFD, noncharacters U+FFFE / U+FFFF
+    (0x10000, 0x1007f), // Linear B (first characters of plane 1)
+    (0x1d400, 0x1d7ff), // mathematical alphanumerics
+    (0x20000, 0x2007f), // CJK extension B (plane 2)
+    (0x30000, 0x3007f), // CJK extension G (plane 3)
+    (0xe0100, 0xe01ef), // variation selectors supplement (plane 14)
+    (0xf0000, 0xf007f), // plane 15 private use
+    (0xffff0, 0xfffff), // end of plane 15
+    (0x100000, 0x10007f), // plane 16 private use
+    (0x10fff0, 0x10ffff), // the last scalar values (char::MAX)
 ];
 
 /// One random scalar value from a random block (never ESC, CR or LF).
